@@ -146,6 +146,29 @@ def parseSpec? (s : String) : Option (UeSpec CF) :=
       pure ⟨d, ncs, norm == 1, cover⟩
   | _ => none
 
+/-- one operation of a cell history: `D:ncs:norm:cover` (construction), `q` (read-only calls), `c<j>` (copy of user j) -/
+def parseCellOp? (s : String) : Option (CellOp CF) :=
+  if s == "q" then some .query
+  else if s.startsWith "c" then ((s.drop 1).toNat?).map .copy
+  else (parseSpec? s).map .build
+
+def showObs (c : Cell CF) : String :=
+  let o := c.observe
+  "q=" ++ toString o.1.1 ++ "/" ++ toString o.1.2.1 ++ "/" ++ toString o.1.2.2 ++ "/"
+    ++ showList (fun u => (if u.1 then "n1." else "n0.") ++ toString u.2.1 ++ "x" ++ toString u.2.2) o.2 "+"
+
+/-- `Cell.runOps` step by step (same `Cell.step`), reporting the observables at every query -/
+def runCellOps (c : Cell CF) : List (CellOp CF) → Cell CF × List String
+  | [] => (c, [])
+  | op :: rest =>
+    let (c1, st) := c.step norm2 op
+    let shown := match op, st with
+      | .query, _ => showObs c1
+      | _, none => "ok"
+      | _, some e => showErr e
+    let (c2, out) := runCellOps c1 rest
+    (c2, shown :: out)
+
 def showUe (ue : UeSeq CF) : String :=
   (if ue.normalized then "n1:" else "n0:") ++ showList showCL ue.rows "|"
 
@@ -183,6 +206,14 @@ def handle (toks : List String) : String :=
         let (c, sts) := Cell.run norm2 ⟨r, []⟩ sps
         showList (fun st => match st with | none => "ok" | some e => showErr e) sts
           ++ " root=" ++ showList showRat c.root.seqArray
+          ++ " users=" ++ showList showUe c.users "#"
+      | some (.error e), _ => showErr e
+      | _, _ => "bad-op"
+  | "cellops" :: rest =>     -- constructions, read-only calls and copies on ONE shared root object
+      match buildRoot rest, (kv rest "ops").bind (fun o => (fields o ";").mapM parseCellOp?) with
+      | some (.ok r), some ops =>
+        let (c, shown) := runCellOps ⟨r, []⟩ ops
+        showList id shown ++ " root=" ++ showList showRat c.root.seqArray
           ++ " users=" ++ showList showUe c.users "#"
       | some (.error e), _ => showErr e
       | _, _ => "bad-op"
